@@ -60,7 +60,7 @@ theorem enqueueAll_run (mk : Server → Probe × GoTime × GoTime) (now : Int)
 /-- **refresh**: one details probe per server whose port is known and which is not awaiting a details retry:
 addressed to the stored query port, ready now, expiring at the next cycle, with the configured budget;
 the reported count is their number; the registry is untouched. -/
-theorem refresh_exact (s : AbsState) (now interval retries : Int) (hi : 0 < interval) :
+theorem refresh_exact (s : AbsState) (now interval retries : Int) :
     let sel := s.filter { withStatus := Status.port, noStatus := Status.detailsRetry }
     let r := (refresh retries (now + interval)).run s now
     r.2 = .ok sel.length ∧
@@ -114,6 +114,112 @@ theorem revive_exact (s : AbsState) (now interval scope countdown retries : Int)
   · rw [h.1]; simp
   · exact h.2.1
   · exact h.2.2
+
+/-! ## countdown longer than the interval: some probes are dropped, the count is not -/
+
+/-- is the probe made for `sv` accepted by `AddBetween` (explicit ready time before explicit expiry, or a bound absent)? -/
+def kept (mk : Server → Probe × GoTime × GoTime) (sv : Server) : Bool :=
+  match (mk sv).2.1, (mk sv).2.2 with
+  | some a, some b => decide (a < b)
+  | _, _ => true
+
+/-- `enqueueAll` over any list, dropped probes included: the queue grows by exactly one probe per server whose probe is
+accepted, in order; a dropped probe is not an error (`enqueue` returns nil), so the count is the number of servers -/
+theorem enqueueAll_run_general (mk : Server → Probe × GoTime × GoTime) (now : Int) :
+    ∀ (svrs : List Server) (s : AbsState) (n : Nat),
+      ((enqueueAll mk svrs n).run s now).2 = n + svrs.length ∧
+      ((enqueueAll mk svrs n).run s now).1.queue.map view =
+        s.queue.map view ++ (svrs.filter (kept mk)).map
+          (fun sv => ((mk sv).1, (match (mk sv).2.1 with | some a => a | none => now), (mk sv).2.2)) ∧
+      ((enqueueAll mk svrs n).run s now).1.servers = s.servers := by
+  intro svrs
+  induction svrs with
+  | nil => intro s n; simp [enqueueAll, pure]
+  | cons sv rest ih =>
+    intro s n
+    simp only [enqueueAll, Prog.run, Call.exec]
+    have := ih (s.enqueue now (mk sv).1 (mk sv).2.1 (mk sv).2.2) (n + 1)
+    by_cases hk : kept mk sv = true
+    · have he := enqueue_view s now (mk sv).1 (mk sv).2.1 (mk sv).2.2 (by
+        intro a b ha hb
+        unfold kept at hk
+        rw [ha, hb] at hk
+        simpa using hk)
+      refine ⟨?_, ?_, ?_⟩
+      · rw [this.1]; simp; omega
+      · rw [this.2.1, he.1, List.filter_cons_of_pos hk]; simp
+      · rw [this.2.2, he.2.1]
+    · have hd : s.enqueue now (mk sv).1 (mk sv).2.1 (mk sv).2.2 = s := by
+        unfold kept at hk
+        cases ha : (mk sv).2.1 with
+        | none => rw [ha] at hk; simp at hk
+        | some a =>
+          cases hb : (mk sv).2.2 with
+          | none => rw [ha, hb] at hk; simp at hk
+          | some b =>
+            rw [ha, hb] at hk
+            exact enqueue_dropped s now (mk sv).1 a b (by simpa using hk)
+      rw [hd] at this ⊢
+      refine ⟨?_, ?_, ?_⟩
+      · rw [this.1]; simp; omega
+      · rw [this.2.1, List.filter_cons_of_neg hk]
+      · exact this.2.2
+
+/-- **revive, any countdown — in particular countdown > interval** (no hypothesis on interval, scope, countdown or the
+draws): `reviveservers.Execute` makes one port probe per selected server, ready at its drawn time, expiring at the next
+cycle; `AddBetween` silently drops those whose drawn ready time is not before the deadline (`probes.go:51-54` returns nil),
+so the queue grows by exactly the selected servers whose drawn ready time is before `now + interval`, in order, while the
+reported count is the number *selected* (`reviveservers.go:88-101`: `probeCount++` after every nil return); the
+registry is untouched.  For countdown ≤ interval nothing is dropped: `revive_exact`. -/
+theorem revive_overlong (s : AbsState) (now interval scope countdown retries : Int) (draws : Nat → Int) :
+    let sel := s.filter { activeAfter := some (now - scope), activeBefore := some (now - interval), noStatus := Status.port ||| Status.portRetry }
+    let r := (revive retries (now - scope) (now - interval) now (now + countdown) (now + interval) draws).run s now
+    r.2 = .ok sel.length ∧
+    r.1.queue.map view = s.queue.map view ++
+      (sel.filter fun sv => decide (selectCountdown now (now + countdown) (draws sv.addr.key) < now + interval)).map
+        (fun sv => ((⟨sv.addr, sv.addr.port, .port, 0, retries⟩ : Probe),
+          selectCountdown now (now + countdown) (draws sv.addr.key), some (now + interval))) ∧
+    r.1.servers = s.servers := by
+  intro sel r
+  have h := enqueueAll_run_general (fun sv => ((⟨sv.addr, sv.addr.port, .port, 0, retries⟩ : Probe),
+      some (selectCountdown now (now + countdown) (draws sv.addr.key)), some (now + interval))) now sel s 0
+  simp only [r, revive, Prog.run_call, Call.exec, Prog.run_bind, Prog.run_pure]
+  refine ⟨?_, ?_, ?_⟩
+  · rw [h.1]; simp
+  · exact h.2.1
+  · exact h.2.2
+
+/-- the number of probes a revival enqueues when the countdown may exceed the interval: the selected servers whose draw
+lands before the deadline — at most, and in general fewer than, the reported count -/
+theorem revive_overlong_count (s : AbsState) (now interval scope countdown retries : Int) (draws : Nat → Int) :
+    let sel := s.filter { activeAfter := some (now - scope), activeBefore := some (now - interval), noStatus := Status.port ||| Status.portRetry }
+    let r := (revive retries (now - scope) (now - interval) now (now + countdown) (now + interval) draws).run s now
+    r.1.queue.length = s.queue.length +
+      (sel.filter fun sv => decide (selectCountdown now (now + countdown) (draws sv.addr.key) < now + interval)).length ∧
+    r.1.queue.length ≤ s.queue.length + sel.length := by
+  intro sel r
+  have h := (revive_overlong s now interval scope countdown retries draws).2.1
+  have hl := congrArg List.length h
+  simp only [List.length_map, List.length_append] at hl
+  exact ⟨hl, by rw [hl]; exact Nat.add_le_add_left (List.length_filter_le _ _) _⟩
+
+/-- a registry with one server refreshed at 0, port unknown -/
+def overlongState : AbsState :=
+  { servers := (∅ : ExtTreeMap Nat SRow).insert 65541 ⟨{ addr := ⟨1, 5⟩, queryPort := 6, status := Status.master, info := [], details := ⟨[], [], []⟩, refreshedAt := some 0, version := 1 }, 0⟩ }
+
+/-- **count ≠ enqueued for countdown > interval** (non-vacuity of `revive_overlong`, and why the property restricts the
+count claim to countdown ≤ interval): clock 100, interval 10, scope 200, countdown 50; the one selected server draws 30,
+its ready time 130 is not before the deadline 110: the probe is dropped, the queue stays empty, the reported count is 1.
+With a draw of 5 (ready 105 < 110) the probe is queued. -/
+example :
+    ((revive 3 (100 - 200) (100 - 10) 100 (100 + 50) (100 + 10) fun _ => 30).run overlongState 100).2 = .ok 1 ∧
+    ((revive 3 (100 - 200) (100 - 10) 100 (100 + 50) (100 + 10) fun _ => 30).run overlongState 100).1.queue = [] ∧
+    (((revive 3 (100 - 200) (100 - 10) 100 (100 + 50) (100 + 10) fun _ => 5).run overlongState 100).1.queue.map view) =
+      [(⟨⟨1, 5⟩, 5, .port, 0, 3⟩, 105, some 110)] :=
+  ⟨by rfl, by decide, by decide⟩
+
+/-- non-vacuity of `revive_exact`: its hypotheses hold for interval 10, countdown 5, draws 2 on the same registry -/
+example := revive_exact overlongState 100 10 200 5 3 (fun _ => 2) (by decide) (by decide) (fun _ => ⟨by decide, fun _ => by decide⟩)
 
 /-- every enqueued revival probe is ready within `[now, now + countdown)` (at `now` when the countdown is 0) -/
 theorem revive_ready_window (now countdown : Int) (d : Int) (hd : 0 ≤ d ∧ (0 < countdown → d < countdown)) :
